@@ -408,6 +408,8 @@ def configs(rep):
                         for edge in ("pos", "neg"):
                             if q and edge == "neg" and (dom == "none" or stages == 4):
                                 continue
+                            if q and dom == "async" and reset_less and width * stages > 6:
+                                continue
                             out.append({"kind": "FFSynchronizer", "stages": stages, "width": width, "signed": signed, "init": init,
                                         "reset_less": reset_less, "dom": dom, "edge": edge})
     # AsyncFFSynchronizer / ResetSynchronizer
@@ -453,6 +455,7 @@ def run(rep):
     tasks = sorted(rotate([(c, replay_n) for c in cfgs], rep.seed), key=lambda t: weight(t[0]))
     flags = {}
     seen_kinds = {}
+    failed_kinds = set()
     for r in pmap(run_config, tasks, rep.procs):
         d = r["cfg"]
         tag = _tag(d)
@@ -464,6 +467,8 @@ def run(rep):
         flags.setdefault(d["kind"], set()).update(r["flags"])
         if r["capped"]:
             rep.add("capped_configurations", 1)
+        if r["errors"] or r["mismatch"]:
+            failed_kinds.add(d["kind"])
         for e in r["errors"]:
             code = e["errs"][0].split(":")[0]
             rep.violation(f"{tag}:{code}", f"{tag}: {e['errs']} after actions {e['path']}", {"cfg": d, "path": e["path"]})
@@ -498,9 +503,15 @@ def run(rep):
         "PulseSynchronizer": ["pulse_in", "pulse_out", "pruned_by_assumption", "pulse_in_simultaneous_with_o_edge", "pulse_in_while_pending",
                               "back_to_back_out_pending", "active_i_edge_without_pulse", "no_active_o_edge"],
     }
+    # Exploration stops behind a failing transition, so a primitive that fails may leave antecedents unreached; that
+    # run is reported as a violation, not as a harness error. A primitive without any failure must reach them all.
     for kind, names in need.items():
-        for n in names:
-            rep.require(n in flags.get(kind, ()), f"{kind}: antecedent {n} never exercised")
+        missing = [n for n in names if n not in flags.get(kind, ())]
+        if missing and kind in failed_kinds:
+            rep.notes.append(f"{kind}: antecedents {missing} not reached behind the reported failures")
+            continue
+        for n in missing:
+            rep.require(False, f"{kind}: antecedent {n} never exercised")
     rep.require(rep.cov.get("negedge_domain_elaborations", 0) > 0, "negedge-domain refusals never attempted")
     rep.assume("state injection through ctx.set is validated by replaying shortest paths from reset on fresh simulators")
     rep.assume("input changes and clock edges are interleaved, never simultaneous; the two PulseSynchronizer clocks may toggle simultaneously")
